@@ -41,6 +41,10 @@ type propInfo struct {
 	LevelNote string
 	Technique string
 	DesignRef string
+	// CrashIsViolation: the property is about the process surviving. A worker that dies (or is
+	// killed by the stuck-run watchdog) inside a run is then replayed from the run's scenario in a fresh
+	// process; if that process dies again the crash is reported as a violation with a replay file.
+	CrashIsViolation bool
 }
 
 var props = map[string]*propInfo{}
@@ -68,6 +72,7 @@ type outcome struct {
 	Sample     json.RawMessage  `json:"sample,omitempty"`
 	Infra      string           `json:"infra,omitempty"`
 	Leak       string           `json:"leak,omitempty"`
+	crashed    bool
 }
 
 type record struct {
@@ -112,7 +117,9 @@ func die2(format string, a ...any) {
 
 func goEnv() []string {
 	env := os.Environ()
-	env = append(env, "GOFLAGS=-mod=mod", "GOPROXY=off", "GOSUMDB=off", "GOTOOLCHAIN=local")
+	// norandomizedheapbase64: Go 1.26 randomises the heap base per process; heap addresses decide the
+	// iteration order of pointer-keyed maps, so with it two processes executing the same run diverge
+	env = append(env, "GOFLAGS=-mod=mod", "GOPROXY=off", "GOSUMDB=off", "GOTOOLCHAIN=local", "GOEXPERIMENT=norandomizedheapbase64")
 	return env
 }
 
@@ -157,6 +164,7 @@ func (b *builder) overlay(harness string) string {
 	for k, v := range b.runtimeOverlay() {
 		rep[k] = v
 	}
+
 	if needsInstrumentation(harness) {
 		inst := filepath.Join(b.scratch, "inst")
 		m, err := instrument(inst, harness)
@@ -286,15 +294,111 @@ func simRandNext() uint64 {
 	src, dst = patch("runtime/proc.go", [][2]string{{
 		"const forcePreemptNS = 10 * 1000 * 1000 // 10ms",
 		"const forcePreemptNS = 3600 * 1000 * 1000 * 1000 // verification overlay: 1h (was 10ms)",
+	}, {
+		// goroutines outside the bubble (the scavenger, the sweeper, the test framework) become runnable
+		// at moments decided by the REAL clock; if they take the runnext slot they push the simulated
+		// goroutine that held it to the tail of the run queue and thereby reorder the simulation.
+		"\tif randomizeScheduler && next && randn(2) == 0 {\n\t\tnext = false\n\t}\n",
+		"\tif randomizeScheduler && next && randn(2) == 0 {\n\t\tnext = false\n\t}\n\tif simRandOn && gp.bubble == nil {\n\t\tnext = false // verification overlay\n\t}\n",
+	}}, "")
+	m[src] = dst
+	// the per-process random keys of the string/memory hash functions decide the iteration order of
+	// every map (together with the per-map seed, which the rand() patch already pins): with random
+	// keys two processes executing the same run iterate `map[string]...` in different orders (e.g.
+	// the order in which the pipeline starts its workers). Constant keys make map order a function
+	// of the run seed alone.
+	src, dst = patch("runtime/alg.go", [][2]string{{
+		"\tfor i := range key {\n\t\tkey[i] = bootstrapRand()\n\t}",
+		"\tfor i := range key {\n\t\tkey[i] = 0x9e3779b97f4a7c15 * uint64(i+1) // verification overlay: constant hash keys\n\t}",
+	}, {
+		"\tfor i := range hashkey {\n\t\thashkey[i] = uintptr(bootstrapRand())\n\t}",
+		"\tfor i := range hashkey {\n\t\thashkey[i] = uintptr(0x9e3779b97f4a7c15 * uint64(i+1)) // verification overlay\n\t}",
+	}}, "")
+	m[src] = dst
+	// sync.Mutex switches to starvation mode (FIFO hand-off instead of barging) when a waiter has
+	// waited for more than 1 ms of REAL time (internal/sync.runtime_nanotime): under machine load the
+	// hand-off order of a contended mutex then depends on the wall clock. While the simulator is on the
+	// mutex sees a frozen clock, i.e. it never enters starvation mode.
+	src, dst = patch("runtime/sema.go", [][2]string{{
+		"func internal_sync_nanotime() int64 {\n\treturn nanotime()\n}",
+		"func internal_sync_nanotime() int64 {\n\tif simRandOn {\n\t\treturn 1 // verification overlay\n\t}\n\treturn nanotime()\n}",
 	}}, "")
 	m[src] = dst
 	return m
 }
 
+// ulidModfile patches github.com/oklog/ulid/v2 through a scratch copy of the module and a scratch
+// go.mod (-modfile) that replaces the module with the copy (files in the module cache cannot be
+// overlaid). Why: the module's default entropy source is seeded from the REAL clock when the package is
+// initialised and is shared by the whole process, so the ULIDs made inside a run (store/model ids
+// minted by the server, the unique labels of the weighted graph's operator nodes, which in turn decide
+// the iteration order of the pipeline's worker map) depended on the process and on every earlier run
+// of the same worker. SimReseed lets the simulator restart the source from the run seed. /repo's own
+// go.mod is not touched.
+func (b *builder) ulidModfile() string {
+	cmd := exec.Command(goBin, "list", "-m", "-f", "{{.Dir}}", "github.com/oklog/ulid/v2")
+	cmd.Dir = repoDir
+	cmd.Env = goEnv()
+	out, err := cmd.Output()
+	if err != nil {
+		die2("ulid patch: go list: %v", err)
+	}
+	srcDir := strings.TrimSpace(string(out))
+	dstDir := filepath.Join(b.scratch, "ulid")
+	os.MkdirAll(dstDir, 0o755)
+	ents, err := os.ReadDir(srcDir)
+	if err != nil {
+		die2("ulid patch: %v", err)
+	}
+	for _, e := range ents {
+		if e.IsDir() || (!strings.HasSuffix(e.Name(), ".go") && e.Name() != "go.mod") || strings.HasSuffix(e.Name(), "_test.go") {
+			continue
+		}
+		data, err := os.ReadFile(filepath.Join(srcDir, e.Name()))
+		if err != nil {
+			die2("ulid patch: %v", err)
+		}
+		if e.Name() == "ulid.go" {
+			s := string(data)
+			const pat = "rng := rand.New(rand.NewSource(time.Now().UnixNano()))"
+			if strings.Count(s, pat) != 1 {
+				die2("ulid patch: pattern not found in %s (module changed?)", srcDir)
+			}
+			s = strings.Replace(s, pat, "rng := rand.New(rand.NewSource(1)) // verification build (was the wall clock)", 1)
+			s += `
+
+// SimReseed exists only in the verification build: restart the default entropy source from seed.
+func SimReseed(seed int64) {
+	l := defaultEntropy.(*LockedMonotonicReader)
+	l.mu.Lock()
+	l.MonotonicReader = Monotonic(rand.New(rand.NewSource(seed)), 0)
+	l.mu.Unlock()
+}
+`
+			data = []byte(s)
+		}
+		if err := os.WriteFile(filepath.Join(dstDir, e.Name()), data, 0o644); err != nil {
+			die2("ulid patch: %v", err)
+		}
+	}
+	gomod, err := os.ReadFile(filepath.Join(repoDir, "go.mod"))
+	if err != nil {
+		die2("ulid patch: %v", err)
+	}
+	mf := filepath.Join(b.scratch, "go.verif.mod")
+	if err := os.WriteFile(mf, append(gomod, []byte("\nreplace github.com/oklog/ulid/v2 => "+dstDir+"\n")...), 0o644); err != nil {
+		die2("ulid patch: %v", err)
+	}
+	if sum, err := os.ReadFile(filepath.Join(repoDir, "go.sum")); err == nil {
+		os.WriteFile(filepath.Join(b.scratch, "go.verif.sum"), sum, 0o644)
+	}
+	return mf
+}
+
 func (b *builder) build(harness string) string {
 	ov := b.overlay(harness)
 	bin := filepath.Join(b.scratch, harness+".test")
-	cmd := exec.Command(goBin, "test", "-c", "-vet=off", "-overlay", ov, "-o", bin, "./internal/verifsim/"+pkgOf(harness))
+	cmd := exec.Command(goBin, "test", "-c", "-vet=off", "-modfile", b.ulidModfile(), "-overlay", ov, "-o", bin, "./internal/verifsim/"+pkgOf(harness))
 	cmd.Dir = repoDir
 	cmd.Env = goEnv()
 	var out bytes.Buffer
@@ -642,6 +746,12 @@ func cmdRun(args []string) {
 			if len(tail) > 6000 {
 				tail = tail[:3000] + "\n...\n" + tail[len(tail)-3000:]
 			}
+			if p.CrashIsViolation && r.lastBegin != nil {
+				if v := crashViolation(b, bin, p, seed, *tier, r); v != nil {
+					viols = append(viols, viol{*v})
+					continue
+				}
+			}
 			infra = append(infra, fmt.Sprintf("worker %d exited with code %d%s:\n%s", w, r.exitCode, where, tail))
 		}
 	}
@@ -782,11 +892,76 @@ func cmdRun(args []string) {
 	}
 }
 
+// crashSig summarises why a process died: the first "panic:" / "fatal error:" line and the first
+// frames that belong to the code under test.
+func crashSig(stderr string, exitCode int) (string, string) {
+	kind := "process_crash"
+	if exitCode == 3 {
+		kind = "process_stuck"
+	}
+	var head string
+	var frames []string
+	for _, l := range strings.Split(stderr, "\n") {
+		t := strings.TrimSpace(l)
+		if head == "" && (strings.HasPrefix(t, "panic:") || strings.HasPrefix(t, "fatal error:") || strings.Contains(t, "goroutine stack exceeds")) {
+			head = t
+			if len(head) > 120 {
+				head = head[:120]
+			}
+		}
+		if strings.HasPrefix(t, "github.com/openfga/openfga/") && !strings.Contains(t, "verifsim") && len(frames) < 3 {
+			f := strings.TrimPrefix(t, "github.com/openfga/openfga/")
+			if i := strings.Index(f, "("); i > 0 && !strings.HasPrefix(f[i:], "(*") {
+				f = f[:i]
+			}
+			if len(frames) == 0 || frames[len(frames)-1] != f {
+				frames = append(frames, f)
+			}
+		}
+	}
+	return kind, head + " in " + strings.Join(frames, " <- ")
+}
+
+// crashViolation regenerates the scenario of the run a worker died in, replays it in a fresh process and,
+// if that process dies as well, returns a synthetic violation record (nil: not reproducible -> infra).
+func crashViolation(b *builder, bin string, p *propInfo, seed uint64, tier string, r workerResult) *record {
+	g := runWorker(bin, job{Mode: "gen", Property: p.ID, Seed: seed, Start: r.lastBegin.Run, Tier: tier}, b.scratch, fmt.Sprintf("gen%d", r.lastBegin.Run), 60*time.Second)
+	if len(g.records) == 0 || len(g.records[0].Scenario) == 0 {
+		return nil
+	}
+	scen := g.records[0].Scenario
+	rr := runWorker(bin, job{Mode: "replay", Property: p.ID, Scenario: scen}, b.scratch, fmt.Sprintf("crash%d", r.lastBegin.Run), 120*time.Second)
+	if rr.done || (len(rr.records) > 0 && rr.records[0].Outcome != nil) {
+		return nil // survived the replay: the death is not a function of the scenario
+	}
+	kind, sig := crashSig(rr.stderr, rr.exitCode)
+	rec := record{Kind: "end", Run: r.lastBegin.Run, RunSeed: r.lastBegin.RunSeed, Scenario: scen, Outcome: &outcome{}}
+	rec.Outcome.Violation = &struct {
+		Class  string `json:"class"`
+		Detail string `json:"detail"`
+		Sig    string `json:"sig"`
+	}{Class: kind, Sig: sig, Detail: "the worker process died while executing this scenario, and died again when the scenario was replayed in a fresh process:\n" + tailStr(rr.stderr)}
+	rec.Outcome.crashed = true
+	return &rec
+}
+
 type minResult struct {
 	path, class, sig, detail, infra, unreproduced string
 }
 
 func confirmAndMinimise(b *builder, bin string, p *propInfo, rec record) minResult {
+	if rec.Outcome.crashed {
+		// a crash was already reproduced in a fresh process by crashViolation; the worker cannot
+		// minimise a scenario that kills it, so the replay file holds the scenario as generated
+		path := filepath.Join(verifDir, "replays", fmt.Sprintf("%s-%d.json", p.ID, rec.RunSeed))
+		os.MkdirAll(filepath.Dir(path), 0o755)
+		var pretty bytes.Buffer
+		json.Indent(&pretty, rec.Scenario, "", " ")
+		file := map[string]any{"property": p.ID, "violation": rec.Outcome.Violation, "scenario": json.RawMessage(pretty.Bytes()), "note": "the process dies on this scenario; not minimised"}
+		data, _ := json.MarshalIndent(file, "", " ")
+		os.WriteFile(path, data, 0o644)
+		return minResult{path: path, class: rec.Outcome.Violation.Class, sig: rec.Outcome.Violation.Sig, detail: rec.Outcome.Violation.Detail}
+	}
 	class := rec.Outcome.Violation.Class
 	tag := fmt.Sprintf("v%d", rec.RunSeed)
 	// replayOK runs the scenario in a fresh process and reports whether the same violation class shows.
@@ -889,6 +1064,11 @@ func cmdReplay(args []string) {
 	bin := b.build(p.Harness)
 	rr := runWorker(bin, job{Mode: "replay", Property: p.ID, Scenario: file.Scenario}, b.scratch, "replay", 120*time.Second)
 	if len(rr.records) == 0 || rr.records[0].Outcome == nil {
+		if p.CrashIsViolation {
+			kind, sig := crashSig(rr.stderr, rr.exitCode)
+			fmt.Printf("VIOLATION property=%s replay=%s\n  class=%s sig=%q\n  the process died while executing the scenario:\n%s\n", p.ID, args[0], kind, sig, tailStr(rr.stderr))
+			os.Exit(1)
+		}
 		die2("no record (exit %d): %s", rr.exitCode, tailStr(rr.stderr))
 	}
 	o := rr.records[0].Outcome
